@@ -10,10 +10,6 @@ import GPy.C09.Generated
 import GPy.C09.Spec
 namespace GPy.C09
 
-def Instr.silent : Instr → Bool
-  | .ret .. | .brErr _ | .jmpBack _ | .body | .work => true
-  | _ => false
-
 /-- yield-point suffix announcing an instruction (must agree with extract/lifecycle) -/
 def Instr.yieldName : Instr → String
   | .lock => "lock" | .unlock => "unlock" | .brClosed _ => "load-closed" | .incRunning => "inc-running"
@@ -23,27 +19,6 @@ def Instr.yieldName : Instr → String
   | .onceDo _ => "once-enter" | .onceEnd => "once-exit" | .waitDone => "wait-done"
   | .wgAdd => "wg-add" | .wgDone => "wg-done" | .wgWait => "wg-wait"
   | _ => "?"
-
-def runSilent (P : Kind → List Instr) (t : Nat) : Nat → State → State
-  | 0, s => s
-  | fuel + 1, s =>
-    match s.ths[t]? with
-    | none => s
-    | some th =>
-      match th.next P with
-      | some i => if i.silent && !th.panicked then
-                    match step P s t with
-                    | some s' => runSilent P t fuel s'
-                    | none => s
-                  else s
-      | none => s
-
-/-- one scheduling step: the visible action thread `t` is parked at, then its thread-local
-instructions up to the next yield point -/
-def macroStep (P : Kind → List Instr) (s : State) (t : Nat) : Option State :=
-  match step P s t with
-  | none => none
-  | some s' => some (runSilent P t 64 s')
 
 structure Tok where
   probe : Bool
@@ -55,11 +30,14 @@ def Tok.text (k : Tok) : String := (if k.probe then "b" else "") ++ toString k.t
 structure Sim where
   s : State
   loose : List Nat := []      -- threads released into a blocking primitive by a probe
+  queue : List Nat := []      -- threads that are inside mu.Lock() in reality, in arrival order (sync.Mutex wakes waiters FIFO):
+                              -- probe-released lockers (from the probe on) and Cond sleepers (from the Broadcast that woke them on)
   obs : List Obs := []        -- reversed
   ys : List String := []      -- reversed: which yield point each token consumed
   toks : List Tok := []       -- reversed
   slept : Bool := false
   probes : Nat := 0
+  jumps : Nat := 0            -- steps in which a probe-released locker took the mutex while a woken Cond sleeper was waiting for it
 
 def Kind.letter : Kind → String
   | .runCode => "R" | .moduleInit => "M" | .resolve => "V" | .close => "C" | .waitDone => "D" | .runImport => "I"
@@ -80,11 +58,19 @@ def nextIs (s : State) (t : Nat) (p : Instr → Bool) : Bool :=
 def sleeping (s : State) (t : Nat) : Bool :=
   match s.ths[t]? with | some th => th.sleep.isSome | none => false
 
-/-- threads the harness cannot hold back: sleepers that were woken and probe-released lockers,
-once the mutex is free -/
+/-- sleepers a Broadcast has woken: they are inside `mu.Lock()` (the second half of `Cond.Wait`) -/
+def woken (s : State) : List Nat :=
+  (List.range s.ths.length).filter fun t => match s.ths[t]? with
+    | some th => (match th.sleep with | some g => decide (s.sh.gen > g) | none => false)
+    | none => false
+
+/-- the thread the harness cannot hold back: once the mutex is free the FIRST goroutine waiting inside
+`mu.Lock()` gets it (a woken Cond sleeper or a probe-released locker; sync.Mutex hands over in arrival
+order when nobody else is competing, and every other goroutine is parked at a yield point) -/
 def urgent (m : Sim) : List Nat :=
-  (unfinished m.s).filter fun t => enabled m.s t &&
-    (sleeping m.s t || (m.loose.contains t && nextIs m.s t (· == .lock)))
+  match m.queue with
+  | h :: _ => if enabled m.s h then [h] else []
+  | [] => []
 
 def Sim.doStep (m : Sim) (t : Nat) : Option Sim :=
   match macroStep P m.s t with
@@ -95,20 +81,35 @@ def Sim.doStep (m : Sim) (t : Nat) : Option Sim :=
           | some i => if th.sleep.isSome then "wake" else i.yieldName
           | none => "?")
       | none => "?"
-    some { m with s := s', loose := m.loose.erase t, obs := observe P s' :: m.obs, ys := s!"{t}:{y}" :: m.ys,
-                  toks := ⟨false, t⟩ :: m.toks, slept := m.slept || sleeping s' t }
+    let q := m.queue.erase t
+    some { m with s := s', loose := m.loose.erase t, queue := q ++ (woken s').filter (fun u => !q.contains u),
+                  obs := observe P s' :: m.obs, ys := s!"{t}:{y}" :: m.ys,
+                  toks := ⟨false, t⟩ :: m.toks, slept := m.slept || sleeping s' t,
+                  jumps := m.jumps + (if nextIs m.s t (· == .lock) && q.any (sleeping m.s) then 1 else 0) }
 
-/-- a blocking probe is possible on a parked, blocked thread; lock probes only while nobody sleeps
-or is already released into Lock (two goroutines racing for the freed mutex cannot be ordered) -/
+/-- a blocking probe is possible on a parked, blocked thread while the mutex is not up for grabs.  A lock probe
+puts the goroutine into the mutex's wait queue behind those already there (the harness confirms each arrival
+through the goroutine's wait state before it goes on, so the queue order is the order of the tokens) -/
 def canProbe (m : Sim) (t : Nat) : Bool :=
-  !enabled m.s t && !m.loose.contains t && !sleeping m.s t &&
-  (if nextIs m.s t (· == .lock) then
-     (unfinished m.s).all (fun u => !sleeping m.s u && !(m.loose.contains u && nextIs m.s u (· == .lock)))
-   else true)
+  !enabled m.s t && !m.loose.contains t && !sleeping m.s t && (urgent m).isEmpty
 
 def Sim.doProbe (m : Sim) (t : Nat) : Sim :=
-  { m with loose := t :: m.loose, obs := observe P m.s :: m.obs, ys := s!"{t}:blocked" :: m.ys,
+  { m with loose := t :: m.loose, queue := if nextIs m.s t (· == .lock) then m.queue ++ [t] else m.queue,
+           obs := observe P m.s :: m.obs, ys := s!"{t}:blocked" :: m.ys,
            toks := ⟨true, t⟩ :: m.toks, probes := m.probes + 1 }
+
+/-- QUEUE-JUMP probes (the order "another locker gets the mutex between the Broadcast and the woken waiter's
+re-acquisition inside Cond.Wait"): the mutex holder is about to Broadcast, a Cond sleeper is still asleep, and
+thread `t` is parked in front of `mu.Lock()`.  Releasing `t` into Lock NOW queues it AHEAD of the sleeper, so
+after the holder's Unlock `t` gets the mutex first.  (Probing earlier in the holder's critical section gives
+the same order; this is the canonical place.) -/
+def queueJumpCands (m : Sim) : List Nat :=
+  match m.s.sh.mu with
+  | none => []
+  | some h =>
+    if nextIs m.s h (· == .broadcast) && (unfinished m.s).any (fun u => sleeping m.s u && !m.queue.contains u) then
+      (unfinished m.s).filter fun t => t != h && canProbe m t && nextIs m.s t (· == .lock)
+    else []
 
 def Sim.stepChoices (m : Sim) : List Nat :=
   match urgent m with
@@ -128,7 +129,7 @@ def Sim.toCase (kinds : List Kind) (m : Sim) (complete : Bool) : Case :=
   let rejected := (kinds.zip final.ths).any fun (k, t) => k.isExec && t.st == .err
   let tags := (if overlap obs kinds || rejected || m.slept || m.probes > 0 then ["nt"] else [])
     ++ (if m.slept then ["closeWaited"] else []) ++ (if rejected then ["rejected"] else [])
-    ++ (if m.probes > 0 then ["probe"] else []) ++ (if overlap obs kinds then ["overlap"] else [])
+    ++ (if m.probes > 0 then ["probe"] else []) ++ (if m.jumps > 0 then ["queuejump"] else []) ++ (if overlap obs kinds then ["overlap"] else [])
     ++ (if complete then ["complete"] else ["prefix"])
     ++ (if kinds.any (fun k => k == .moduleInit || k == .runImport) then ["nested"] else [])
   { input := String.join (kinds.map Kind.letter) ++ " " ++ String.join (m.toks.reverse.map Tok.text),
@@ -137,18 +138,31 @@ def Sim.toCase (kinds : List Kind) (m : Sim) (complete : Bool) : Case :=
     specV := "OK", tags := tags }
 
 /-- all schedules (depth first) up to `depth` tokens; `emit` receives complete schedules and
-the prefixes cut at the bound -/
-partial def dfs (kinds : List Kind) (emit : Case → IO Unit) (m : Sim) (depth : Nat) : IO Unit := do
+the prefixes cut at the bound.  `budget` caps the number of cases per kind set (the correct tree stays far
+below it – largest set ≈ 51 000; a mutated program whose interleavings explode is cut off there: the bounded
+`search` and the cases emitted so far still find its violations) -/
+partial def dfsB (kinds : List Kind) (emit : Case → IO Unit) (budget : IO.Ref Nat) (m : Sim) (depth : Nat) : IO Unit := do
+  if (← budget.get) == 0 then return
   let ch := m.stepChoices
   if ch.isEmpty then
+    budget.modify (· - 1)
     emit (m.toCase kinds ((unfinished m.s).isEmpty))
   else if depth == 0 then
+    budget.modify (· - 1)
     emit (m.toCase kinds false)
   else
     for t in ch do
       match m.doStep t with
-      | some m' => dfs kinds emit m' (depth - 1)
+      | some m' => dfsB kinds emit budget m' (depth - 1)
       | none => pure ()
+    for c in queueJumpCands m do
+      dfsB kinds emit budget (m.doProbe c) (depth - 1)
+
+def dfsCap : Nat := 80000
+
+def dfs (kinds : List Kind) (emit : Case → IO Unit) (m : Sim) (depth : Nat) : IO Unit := do
+  let b ← IO.mkRef dfsCap
+  dfsB kinds emit b m depth
 
 /-- one seeded random schedule with blocking probes -/
 partial def walk (kinds : List Kind) (m : Sim) (r : Rng) (maxLen : Nat) (probePct : Nat) : Sim × Rng := Id.run do
@@ -161,7 +175,14 @@ partial def walk (kinds : List Kind) (m : Sim) (r : Rng) (maxLen : Nat) (probePc
     let blocked := (unfinished m.s).filter (canProbe m)
     let (r1, x) := r.nat 100
     r := r1
-    if x < probePct && !blocked.isEmpty && (urgent m).isEmpty then
+    let qj := queueJumpCands m
+    let (r0, xq) := r.nat 100
+    r := r0
+    if xq < 50 && !qj.isEmpty then
+      let (r2, i) := r.nat qj.length
+      r := r2
+      m := m.doProbe qj[i]!
+    else if x < probePct && !blocked.isEmpty && (urgent m).isEmpty then
       let (r2, i) := r.nat blocked.length
       r := r2
       m := m.doProbe blocked[i]!
@@ -179,9 +200,11 @@ def multisets : Nat → List Kind → List (List Kind)
   | _, [] => []
   | n + 1, k :: ks => (multisets n (k :: ks)).map (k :: ·) ++ multisets (n + 1) ks
 
-def genMain (tier : String) (seed : Nat) : IO Unit := do
+def genCases (tier : String) (seed : Nat) (first : (Case → IO Unit) → IO Unit) : IO Unit := do
   let acc ← IO.mkRef (#[] : Array String)
   let emit (c : Case) : IO Unit := acc.modify (·.push c.line)
+  -- the bounded search over the regenerated program comes first (see Search.lean)
+  first (fun c => IO.println c.line)
   let thorough := tier == "thorough"
   -- 1 thread and all pairs of thread kinds: every interleaving, complete
   for k in Kind.all do dfs [k] emit (Sim.start [k]) 1000
@@ -191,7 +214,9 @@ def genMain (tier : String) (seed : Nat) : IO Unit := do
   for ks in multisets 3 Kind.all do
     let nI := (ks.filter (· == .runImport)).length
     let hasC := ks.any (· == .close)
-    if (hasC && nI == 0) || (thorough && (nI == 0 || (hasC && nI == 1))) then dfs ks emit (Sim.start ks) 1000
+    -- quick also: RunCode + Close + importing RunCode (Close arriving anywhere inside RunCode ⊃ ModuleInit ⊃ RunCode)
+    if (hasC && nI == 0) || ks == [.runCode, .close, .runImport] || (thorough && (nI == 0 || (hasC && nI == 1))) then
+      dfs ks emit (Sim.start ks) 1000
   -- seeded random complete schedules of 3 and 4 threads with blocking probes
   let mut r : Rng := ⟨(seed * 7919 + 13).toUInt64⟩
   let n3 := if thorough then 40000 else 5000
@@ -209,6 +234,21 @@ def genMain (tier : String) (seed : Nat) : IO Unit := do
       let (m, r3) := walk ks (Sim.start ks) r 400 (pp * 8)
       r := r3
       emit (m.toCase ks ((unfinished m.s).isEmpty))
+  -- targeted: a Close, a nested execution (ModuleInit or importing RunCode) and one or two more executions
+  let nT := if thorough then 12000 else 1500
+  for j in [0:nT] do
+    let (r1, a) := r.nat 2
+    let (r2, b) := r1.nat 4
+    let (r3, c) := r2.nat 5
+    let (r4, pos) := r3.nat 3
+    r := r4
+    let nested := [Kind.runImport, .moduleInit][a]!
+    let other := [Kind.runCode, .moduleInit, .resolve, .runImport][b]!
+    let base := if pos == 0 then [Kind.close, nested, other] else if pos == 1 then [nested, .close, other] else [nested, other, .close]
+    let ks := if j % 3 == 0 then base ++ [[Kind.runCode, .resolve, .close, .waitDone, .moduleInit][c]!] else base
+    let (m, r5) := walk ks (Sim.start ks) r 600 (if j % 2 == 0 then 8 else 0)
+    r := r5
+    emit (m.toCase ks ((unfinished m.s).isEmpty))
   -- print in a strided order so that contiguous shards of the case file carry the same mix of cheap
   -- exhaustive cases and expensive probing cases
   let lines ← acc.get
